@@ -1139,7 +1139,16 @@ impl IpHeaders {
         match self {
             IpHeaders::Ipv4(ipv4_hdr, exts) => {
                 if let Some(complete_len) = len.checked_add(exts.header_len()) {
-                    ipv4_hdr.set_payload_len(complete_len)
+                    // report the length given to this function & the maximum
+                    // it accepts (without the extension headers)
+                    let exts_len = exts.header_len();
+                    ipv4_hdr
+                        .set_payload_len(complete_len)
+                        .map_err(|err| ValueTooBigError {
+                            actual: len,
+                            max_allowed: err.max_allowed.saturating_sub(exts_len),
+                            value_type: err.value_type,
+                        })
                 } else {
                     Err(ValueTooBigError {
                         actual: len,
@@ -1152,12 +1161,21 @@ impl IpHeaders {
             }
             IpHeaders::Ipv6(ipv6_hdr, exts) => {
                 if let Some(complete_len) = len.checked_add(exts.header_len()) {
-                    ipv6_hdr.set_payload_length(complete_len)
+                    // report the length given to this function & the maximum
+                    // it accepts (without the extension headers)
+                    let exts_len = exts.header_len();
+                    ipv6_hdr
+                        .set_payload_length(complete_len)
+                        .map_err(|err| ValueTooBigError {
+                            actual: len,
+                            max_allowed: err.max_allowed.saturating_sub(exts_len),
+                            value_type: err.value_type,
+                        })
                 } else {
                     Err(ValueTooBigError {
                         actual: len,
                         max_allowed: usize::from(u16::MAX) - exts.header_len(),
-                        value_type: ValueType::Ipv4PayloadLength,
+                        value_type: ValueType::Ipv6PayloadLength,
                     })
                 }
             }
